@@ -9,7 +9,12 @@ file removed. The full statement is false when a stale signature flows (regen_st
 Tie (black box, real binary): edit histories v1 -> v2 over generated packages and, for byte offsets k,
 derived.gen.go := first k bytes of the previous / of the new output; the file left behind must be
 byte-identical to the from-scratch file, the exit status the same, and the package must type-check.
-Each history carries the class the model puts it in (no-flow / agreeing-flow / stale-flow)."""
+Each history carries the class the model puts it in (no-flow / agreeing-flow / stale-flow).
+
+Correspondence tie (vlib/regen.py): the model `Goderive.Reload.regen` itself is RUN (driver op `regen`) on generated
+flow scenarios (harness/cmd/genregen) next to the real goderive, with the old file, from scratch and on the old
+sources; outcomes (exit kind, removed / generated functions with their result types) must be equal, and where the
+theorems' hypotheses hold (no stale flowing signature) the implementation must not differ from scratch."""
 import hashlib
 import json
 import os
@@ -228,9 +233,19 @@ def run(rep):
                        "reordered/all removed, a derive result feeding another derive call with and without a change of the "
                        "flowing type) x old derived.gen.go in {absent, output of v1, every sampled byte prefix of the v1 output and "
                        "of the v2 output}; distinct = distinct (history, old-file state) whose old file is non-empty")
-    rep.assumptions += ["go/loader's tolerance of a broken derived.gen.go is the loader contract of the model (exercised, not proved)",
+    rep.cov["rule"] += ("; correspondence tie: G/Reload.regen run on generated flow scenarios (chains of 1-4 derive calls through "
+                        "local / package-level variables and nested calls x old file in {absent, same, retyped, renamed type, extra / "
+                        "missing functions, declarations cut out, all calls removed}) against goderive with the old file, from scratch "
+                        "and on the old sources; distinct also counts the scenarios where the model predicts a difference from scratch")
+    rep.assumptions += ["regen tie: the plugin table `gen` of the model is measured on one-call packages (a plugin's answer depends only on "
+                        "its argument types); no two types of the scenario universe are assignable to each other; a call that waits for "
+                        "another derive call never bears a name a helper function could be given (.work/new-defects-regen.md)",
+                        "go/loader's tolerance of a broken derived.gen.go is the loader contract of the model (exercised, not proved)",
                         "the write itself (os.Create + two writes) is not atomic: truncated files are the crash states the next run must heal"]
     common.proof_part(rep, "C07", thorough_checker=(rep.tier == "thorough"))
+    # the model run next to the implementation: G/Reload.regen on generated flow scenarios (vlib/regen.py)
+    from vlib import regen
+    regen.run(rep)
     _, binp = common.build_goderive()
     rng = random.Random(rep.seed)
     hs = histories(rng, rep.tier)
@@ -367,6 +382,13 @@ def run(rep):
 
 def replay(rep, path):
     r = json.load(open(path))
+    if r.get("tie") == "regen":
+        # a scenario of the correspondence tie: the generator is deterministic in the seed, so the tie is re-run as it was
+        print("replay: regen scenario %s (%s) — re-running the regen tie with seed %s" % (r["scenario"]["id"], r.get("which"), r.get("seed")))
+        rep.seed, rep.tier = r.get("seed", rep.seed), r.get("tier", rep.tier)
+        from vlib import regen
+        regen.run(rep)
+        return rep.finish()
     print("replay: history %s, old state %s — re-running the whole check with seed %s" % (r.get("history"), r.get("old_state"), r.get("seed")))
     rep.seed, rep.tier = r.get("seed", rep.seed), r.get("tier", rep.tier)
     run(rep)
